@@ -505,8 +505,6 @@ def pytest_sessionfinish(session, exitstatus):
                     used_changes += changes[flag]
                     approved_categories.add(flag)
 
-            report_problems(console)
-
             if used_changes:
                 cr = ChangeRecorder()
                 apply_all(used_changes, cr)
@@ -534,6 +532,9 @@ def pytest_sessionfinish(session, exitstatus):
                         state().storage.persist(external_name)
 
                 cr.fix_all()
+
+            # after fix_all(), because the formatter is also used when the files are written
+            report_problems(console)
 
             unused_externals = _find_external.unused_externals()
 
